@@ -17,8 +17,27 @@ ShapeChains == << << >>, << Rep("N") >>, << Rep("EAP") >>, << Rep("SA"), Rep("KE
                   << Rep("KE") >>, << Rep("AUTH") >>, << Rep("NONCE") >>, << Rep("SA") >>, << Rep("CERTREQ") >>, << Rep("IDi") >>, << Rep("TSr") >>,
                   << [k |-> "NONCE", data |-> D(11, 5)] >>, << [k |-> "NONCE", data |-> D(12, 5)] >>, << [k |-> "NONCE", data |-> D(13, 5)] >>,
                   << [k |-> "V", data |-> D(65000, 6)] >> >>
-NShapes == Len(ShapeChains)
-M(i) == Msg(((i - 1) % 5) + 1, ShapeChains[i])
+NOld == Len(ShapeChains)
+\* more shapes (thinner sampling in the quick tier): the same kind twice and three times in one message, for every kind; TS lists in which
+\* an IPv6 selector is followed by further selectors; payloads with edge contents; inner chains around 32 KB (the Encrypted payload's
+\* length crosses 2^15) made of several middle-sized payloads; headers with values strictly inside their ranges (Hdr 6..10)
+TsMix(kk, l) == [k |-> kk, sel |-> l]
+MoreChains == [i \in 1..Len(PKinds) |-> << Rep(PKinds[i]), Rep(PKinds[i]) >>]
+              \o << << Rep("CERTREQ"), Rep("N"), Rep("CERTREQ"), Rep("CERTREQ") >>, << Rep("KE"), Rep("NONCE"), Rep("KE"), Rep("NONCE") >>,
+                    << TsMix("TSi", << Sel6(17, 1, 2, 34), Sel4(6, 256, 1, 33) >>), TsMix("TSr", << Sel6(17, 1, 2, 34), Sel4(6, 256, 1, 33) >>) >>,
+                    << TsMix("TSr", << Sel6(1, 2, 3, 35), Sel6(4, 5, 6, 36), Sel4(47, 4660, 22136, 36), Sel6(7, 8, 9, 37) >>), TsMix("TSi", << Sel6(1, 2, 3, 35), Sel6(4, 5, 6, 36) >>) >>,
+                    << TsMix("TSi", << SelA(8, Zeros(10) \o << 255, 255, 10, 0, 0, 1 >>, Zeros(10) \o << 255, 255, 10, 0, 0, 9 >>), SelA(7, Zeros(4), Const(4, 255)) >>) >>,
+                    << [k |-> "IDi", idt |-> 2, data |-> Edge("trail0", 9, 1)], [k |-> "NONCE", data |-> Edge("lead0", 16, 2)], [k |-> "V", data |-> Edge("sp", 9, 3)] >>,
+                    << [k |-> "EAP", eap |-> [code |-> 2, id |-> 128, m |-> "identity", data |-> Edge("trail00", 9, 4)]], [k |-> "KE", grp |-> 14, data |-> Edge("lead00", 9, 5)] >>,
+                    << Rep("D"), [k |-> "D", proto |-> 3, spisz |-> 4, num |-> 3, spis |-> << D(4, 1), D(4, 1), D(4, 2) >>] >>,
+                    << Rep("N") >>, << Rep("N") >>, << Rep("N") >>, << Rep("N") >>, << Rep("N") >>,
+                    << [k |-> "CERT", enc |-> 4, data |-> D(17000, 1)], [k |-> "CERT", enc |-> 4, data |-> D(15700, 2)], Rep("N") >>,
+                    << [k |-> "V", data |-> D(16380, 3)], [k |-> "V", data |-> D(16384, 4)] >>,
+                    << [k |-> "KE", grp |-> 14, data |-> D(32760, 5)] >> >>
+AllChains == ShapeChains \o MoreChains
+NShapes == Len(AllChains)
+MidBig == { i \in 1..NShapes : i > NShapes - 3 }
+M(i) == Msg(IF i <= NOld THEN ((i - 1) % 5) + 1 ELSE ((i - 1) % 10) + 1, AllChains[i])
 
 \* variants: 1..8 = round trip with rand class x header mode; 9 = unkeyed fallback; 10.. = reference-built (pad index)
 RandOf(v) == << "system", "zero", "ff", "ramp" >>[((v - 1) % 4) + 1]
@@ -188,14 +207,16 @@ Next ==
                          IF OnlySeq # "" THEN v = NVariants /\ mi = 1 ELSE
                          \* quick tier: thin out the product, every suite x role still meets every shape and every variant class
                          \/ Thorough
-                         \/ (v <= 8 /\ (v + mi + su) % 4 = 0)
+                         \/ (v <= 8 /\ mi <= NOld /\ (v + mi + su) % 4 = 0)
+                         \/ (v <= 8 /\ mi > NOld /\ (v + mi + su) % 8 = 0)
                          \/ (v = 9 /\ su = 1)
                          \/ (v >= 10 /\ v <= 25 /\ mi <= 6 /\ (v + mi + su) % 4 = 0)
+                         \/ (v >= 10 /\ v <= 25 /\ mi > NOld /\ (v + mi + su) % 16 = 0)
                          \/ (v > 25 /\ v <= 25 + NInner /\ mi = 1 /\ (v + su) % 3 = 0)
                          \/ (v > 25 + NInner /\ v <= 25 + NInner + NBig /\ mi = 1 /\ (v + su) % 8 = 0)
                          \/ (v = 25 + NInner + NBig + 1 /\ mi = 1) }
      /\ (variant' > 25 => mi = 1)
-     /\ (variant' >= 10 /\ variant' <= 25 => Len(EncChain(NormChain(M(mi).payloads))) < 4000)
+     /\ (variant' >= 10 /\ variant' <= 25 => Len(EncChain(NormChain(M(mi).payloads))) < 4000 \/ (mi \in MidBig /\ (Thorough => (variant' + mi + su) % 16 = 0)))
   \/ stage = 3 /\ UNCHANGED << stage, su, role, mi, variant >>
 
 Vec == IF variant <= 8 THEN RoundTripVector(SuiteSeq[su], role, M(mi), variant)
